@@ -1,9 +1,7 @@
-use minijinja::{Environment, context};
+use minijinja::Environment;
 fn main() {
-    let mut env = Environment::new();
-    env.set_debug(true);
-    for src in ["{% do nosuch7777() %}\nnext {{ i }}\n{{ s }}", "line1\n\n{% set a7777, b = [1] %}\n\n{{ i }}", "{{ 1 }}\n{{ (7777 // 0) }}\n{{ 2 }}"] {
-        let r = env.render_str(src, context!{ i => 1, s => "x" });
-        match r { Ok(s) => println!("ok {s:?}"), Err(e) => println!("{:?} line {:?} range {:?}", e.kind(), e.line(), e.range()) }
+    let env = Environment::new();
+    for src in ["{% call unknown_fn() %}\n a\n {{ 1 }}\n b\n{% endcall %}", "x\n{{ foo(\n\n\n   \"bad \\x escape\") }}"] {
+        match env.render_str(src, ()) { Ok(o) => println!("ok {o:?}"), Err(e) => println!("{:?} line={:?} range={:?}", e.kind(), e.line(), e.range()) }
     }
 }
